@@ -129,6 +129,33 @@ theorem C04_T3_add_rrset (sec : RrSection) (hint : Hint) (owner : WName) (ty cls
     ∃ s', addRrsetOp sec hint owner ty cls ttl rds s = (.ok (), s') ∧ t = lift d s' :=
   sim_addRrsetOp sec hint owner ty cls ttl rds d s () t h hc
 
+/-- when the answering logic succeeds, `handle_non_axfr_query` adds nothing (either transport) -/
+theorem C04_handle_of_inner_ok (z : Zone.Zone) (qname : WName) (qtype : Nat) (tr : Transport) (ps ps' : PS)
+    (h : inner z qname qtype ps = (.ok (), ps')) : handleNonAxfrQueryL z qname qtype tr ps = (.ok (), ps') := by
+  have hin : (if qtype = QT "ANY" then answerAny z qname ps else Server.answer z qname qtype ps)
+      = inner z qname qtype ps := by
+    unfold inner; split <;> rfl
+  unfold handleNonAxfrQueryL
+  simp only [hin, h]
+
+/-- **T3 for the server's answer phase**: let the writers of the two transports differ only in the
+    room (`lift d w` has `d` more octets than `w` — TCP vs UDP after `set_limit`). If with more
+    room the answering logic succeeds with every call accepted (the complete answer) and the
+    result fits the smaller room, then with the smaller room `handle_non_axfr_query` makes the
+    same calls with the same results (the same log, so the same RCODE, AA, sections, TC clear) and
+    leaves the same octets: the UDP response is the TCP response. When the answering logic *fails*
+    with more room (SERVFAIL) nothing of the kind holds — `C04_T3_corner_shape`, known finding K01. -/
+theorem C04_T3_answer_phase (z : Zone.Zone) (qname : WName) (qtype : Nat) (tr1 tr2 : Transport) (d : Nat)
+    (w : Writer.State) (pt : PS)
+    (h : inner z qname qtype ⟨lift d w, []⟩ = (.ok (), pt)) (hok : ∀ e ∈ pt.log, OkEv e)
+    (hc : pt.w.cursor ≤ w.available) :
+    handleNonAxfrQueryL z qname qtype tr2 ⟨lift d w, []⟩ = (.ok (), pt) ∧
+    ∃ ps', handleNonAxfrQueryL z qname qtype tr1 ⟨w, []⟩ = (.ok (), ps') ∧ ps'.log = pt.log ∧
+      pt.w = lift d ps'.w ∧ ps'.w.cursor = pt.w.cursor ∧ ps'.w.octets = pt.w.octets := by
+  refine ⟨C04_handle_of_inner_ok z qname qtype tr2 _ _ h, ?_⟩
+  obtain ⟨ps', h1, h2, h3⟩ := inner_limit_independent z qname qtype d w pt h hok hc
+  exact ⟨ps', C04_handle_of_inner_ok z qname qtype tr1 _ _ h1, h2, h3, by rw [h3]; rfl, by rw [h3]; rfl⟩
+
 /-! ### T2: what `handle_non_axfr_query` does with a `Truncation` -/
 
 /-- **the epilogue, exactly**: whatever the answering logic (`answer` / `answer_any`) returned,
@@ -318,5 +345,18 @@ example : view (handleNonAxfrQueryL exZone ⟨[[120], lz]⟩ 1 .tcp ⟨wSmall, [
 /-- the finished UDP message is 21 octets (header + question): within the limit of 40 -/
 example : (match Writer.finish (handleNonAxfrQueryL exZone ⟨[[120], lz]⟩ 1 .udp ⟨wSmall, []⟩).2.w with
     | .ok (b, _) => b.size | _ => 0) = 21 := by decide +kernel
+
+/-- non-vacuity of T3: a 512-octet writer and the same writer with 65 023 more octets of room
+    (UDP vs TCP); the NXDOMAIN answer is complete with the larger room and fits the smaller one -/
+def wUdp : Writer.State :=
+  match Writer.new (Array.replicate 65535 0) 512 with
+  | .ok w => (Writer.addQuestion ⟨[[120], lz]⟩ 1 1 w).2
+  | _ => default
+
+example : (inner exZone ⟨[[120], lz]⟩ 1 ⟨lift 65023 wUdp, []⟩).1 = .ok () ∧
+    (inner exZone ⟨[[120], lz]⟩ 1 ⟨lift 65023 wUdp, []⟩).2.w.cursor ≤ wUdp.available ∧
+    (inner exZone ⟨[[120], lz]⟩ 1 ⟨lift 65023 wUdp, []⟩).2.log
+      = [.rcode 3, .aa true, .add ⟨.authority, ⟨[lz]⟩, 6, 1, 60, [soaRd], false, .ok ()⟩] := by
+  decide +kernel
 
 end QV.C04
